@@ -285,7 +285,8 @@ def roles_of(root, names, fname):
             if n in s.nonlocals:
               tags.add((n, 'free_variable_written'))
         elif r is s and n in s.bound and n not in s.params:
-          tags.add((n, 'local_read_written' if n in s.read else 'assigned_only'))
+          rd = n in s.read or any(n in d.read and resolve(d, n) is s for d in s.descendants())
+          tags.add((n, 'local_read_written' if rd else 'assigned_only'))
         if r is s and n in s.params and n in s.read and not (n in s.bound - s.params):
           tags.add((n, 'read_only'))
   return tags
